@@ -40,11 +40,11 @@ def mod(name):
 
 
 def default_bindings():
-    from .npx import NPX, MATHX
+    from .npx import NPX, MATHX, NDIX
     from .stx import STX
 
     return {
-        "contours": {"np": NPX, "sts": STX},
+        "contours": {"np": NPX, "sts": STX, "ndi": NDIX},
         "distributions": {"np": NPX, "sts": STX, "math": MATHX},
         "jointmodels": {"np": NPX},
         "intervals": {"np": NPX},
